@@ -33,3 +33,9 @@ func init() {
 		run(st.Choices)
 	}
 }
+
+func envInt(k string) int {
+	v := 0
+	fmt.Sscan(os.Getenv(k), &v)
+	return v
+}
